@@ -208,7 +208,7 @@ def judge_history(case):
                 # an algorithm keeps the data (and sampling frequency) it was given when it was added
                 j.check(_fp(a.data, kind) == m["bound"][0] and a.fs == m["bound"][1], "binding-changed",
                         lambda: f"after step {step} ({what}): algorithm {n} is no longer bound to the data/fs it was added with")
-            if m["ran"] and not m["orig"]:
+            if m.get("unknown") or (m["ran"] and not m["orig"]):
                 continue  # bound to preprocessed data: no isolated reference for that state
             if not m["ran"]:
                 j.check(a.result is None, "result-without-run", lambda: f"after step {step} ({what}): algorithm {n} has a result although it never ran successfully")
@@ -253,6 +253,10 @@ def judge_history(case):
                 j.check(raised(r) and r.type == "KeyError", "unknown-name", lambda: f"run_by_name({n!r}) on a setup without that algorithm: {r!r} (KeyError expected)")
             elif not algs_spec[n][1]:
                 j.check(raised(r) and r.type == "ValueError", "missing-params", lambda: f"run without run parameters: {r!r} (ValueError expected)")
+            elif raised(r) and not model[n]["orig"]:
+                # bound to preprocessed data, for which there is no isolated reference run: whether the algorithm can
+                # digest that record (e.g. an exactly zero DC line after detrending) is not this property's subject
+                j.skip("run-raises-on-preprocessed-data")  # run() raised before a result was stored: the state is unchanged
             else:
                 if j.check(not raised(r), "run-raises", lambda: f"run_by_name({n!r}) raised {r!r}"):
                     model[n]["ran"] = True
@@ -272,6 +276,10 @@ def judge_history(case):
                     model[n]["ran"] = True
                     model[n]["mpe"] = False
                     ran_classes.add(algs_spec[n][0])
+            elif raised(r) and any(not model[n]["orig"] for n in added):
+                j.skip("run-all-raises-on-preprocessed-data")
+                for n in added:  # which algorithms completed before the failing one is not modelled
+                    model[n]["unknown"] = True
             else:
                 if j.check(not raised(r), "run-all-raises", lambda: f"{r!r}"):
                     for n in added:
@@ -291,6 +299,11 @@ def judge_history(case):
                 j.check(raised(r) and r.type == "KeyError", "unknown-name", lambda: f"mpe({n!r}) on a setup without that algorithm: {r!r} (KeyError expected)")
             elif not model[n]["ran"]:
                 j.check(raised(r), "mpe-before-run", lambda: f"mpe({n!r}) before run did not raise")
+            elif not model[n]["orig"] or model[n].get("unknown"):
+                if raised(r):
+                    j.skip("mpe-raises-on-preprocessed-data")
+                else:
+                    model[n]["mpe"] = True
             else:
                 tag, _ = expected(kind, algs_spec[n][0], "mpe", seeds[algs_spec[n][2]])
                 if tag == "ok":
